@@ -570,7 +570,58 @@ impl<T: HCfg> World<T> {
                     line.insert("r".into(), json!("ok"));
                     return;
                 }
-                let r = catch_unwind(AssertUnwindSafe(|| sess.advance_frame()));
+                // `wait` (ms): advance_frame_with_wait_timeout; `arr` = packets that reach the socket while
+                // the call waits: [[offset ms (1..=wait), from, position in the link or packet id, by id?]...]
+                let wait = s.get("wait").and_then(|v| v.as_u64());
+                let r = if let Some(wms) = wait {
+                    let mut arr: Vec<(u64, Addr, u64, bool)> = s
+                        .get("arr")
+                        .and_then(|v| v.as_array())
+                        .map(|a| {
+                            a.iter()
+                                .map(|x| {
+                                    (
+                                        x[0].as_u64().unwrap_or(0),
+                                        x[1].as_u64().unwrap_or(0) as Addr,
+                                        x[2].as_u64().unwrap_or(0),
+                                        x.get(3).and_then(|b| b.as_bool()).unwrap_or(false),
+                                    )
+                                })
+                                .collect()
+                        })
+                        .unwrap_or_default();
+                    arr.sort_by_key(|a| a.0);
+                    let net = self.net.clone();
+                    let me = p as Addr;
+                    let happened: Rc<RefCell<Vec<Value>>> = Rc::new(RefCell::new(Vec::new()));
+                    let hap = happened.clone();
+                    let mut elapsed = 0u64;
+                    instant::verif_set_yield(Some(Box::new(move || {
+                        instant::verif_advance_ms(1);
+                        elapsed += 1;
+                        for (off, from, key, by_id) in arr.iter() {
+                            if *off == elapsed {
+                                let mut n = net.borrow_mut();
+                                let k = if *by_id { n.index_of(*from, me, *key) } else { Some(*key as usize) };
+                                if let Some(k) = k {
+                                    if let Some(id) = n.deliver_k(*from, me, k) {
+                                        hap.borrow_mut().push(json!([off, from, k, id]));
+                                    }
+                                }
+                            }
+                        }
+                    })));
+                    let r = catch_unwind(AssertUnwindSafe(|| {
+                        sess.advance_frame_with_wait_timeout(std::time::Duration::from_millis(wms))
+                    }));
+                    instant::verif_set_yield(None);
+                    line.insert("wait".into(), json!(wms));
+                    line.insert("arr".into(), Value::Array(happened.borrow().clone()));
+                    line.insert("t1".into(), json!(instant::verif_now_ms()));
+                    r
+                } else {
+                    catch_unwind(AssertUnwindSafe(|| sess.advance_frame()))
+                };
                 match r {
                     Ok(Ok(reqs)) => {
                         let game = &mut peer.game;
